@@ -3,6 +3,7 @@ package main
 // Go maps as finite maps in ghost heaps: MapP (presence), MapV (value cell), MapN (size).
 
 import (
+	"fmt"
 	"go/ast"
 	"go/types"
 )
@@ -164,21 +165,41 @@ func (e *Engine) havocMap(st *State, m RefV) {
 func (e *Engine) execRangeMap(st *State, n *ast.RangeStmt, cx *Ctx, lc *LoopContract, keyObj, valObj *types.Var, mt *types.Map) *State {
 	e.ensureMapHeaps(st)
 	m := e.eval(st, n.X)
+	zeroVis := T{"((as const (Array Int Int)) 0)", SArr}
+	e.visStack = append(e.visStack, zeroVis)
 	e.checkInvariants(st, lc, "inv-init", n.Pos())
 	head := st
 	e.havocLoopTargets(head, n.Body)
+	// ghost: the set of keys already visited (each key of the map is visited exactly once; the map is not
+	// modified by the loop body: checked below)
+	vis := e.fresh("visited", SArr)
+	e.visStack[len(e.visStack)-1] = vis
+	{
+		e.nsym++
+		v := fmt.Sprintf("vk!%d", e.nsym)
+		k := T{v, SInt}
+		e.assume(head, Forall([]string{v}, And(Or(Eq(Sel(vis, k), I(0)), Eq(Sel(vis, k), I(1))), Implies(Eq(Sel(vis, k), I(1)), e.mapHas(head, m, k)))), "visited keys are keys of the map")
+	}
+	mapP0, mapV0 := head.ghost["MapP"], head.ghost["MapV"]
 	e.assumeInvariants(head, lc)
-	e.noteAssumption("map iteration modelled as an arbitrary key of the map per iteration (order-independent; visited-set not tracked)")
+	e.noteAssumption("map iteration: arbitrary order, each key once (ghost visited-set); the iterated map must not change in the loop")
 	exit := head.clone()
+	{
+		e.nsym++
+		v := fmt.Sprintf("vk!%d", e.nsym)
+		k := T{v, SInt}
+		exit.pc = e.name("pc", And(head.pc, Forall([]string{v}, Implies(e.mapHas(head, m, k), Eq(Sel(vis, k), I(1))))))
+	}
 	body := head
 	k := e.fresh("mapkey", SInt)
-	body.pc = e.name("pc", And(head.pc, e.mapHas(body, m, k)))
+	body.pc = e.name("pc", And(head.pc, e.mapHas(body, m, k), Eq(Sel(vis, k), I(0))))
 	if keyObj != nil {
 		switch u := under(mt.Key()).(type) {
 		case *types.Basic:
 			if u.Info()&types.IsString != 0 {
 				body.vars[keyObj] = StrV{k}
 				e.assume(body, Ge(e.slen(k), I(0)), "string length")
+				e.strIDs = append(e.strIDs, k)
 			} else {
 				body.vars[keyObj] = IntV{k}
 				e.assume(body, rangeFact(k, mt.Key()), "type range")
@@ -191,11 +212,19 @@ func (e *Engine) execRangeMap(st *State, n *ast.RangeStmt, cx *Ctx, lc *LoopCont
 		body.vars[valObj] = e.cellToValue(body, e.mapCell(body, m, k), mt.Elem())
 	}
 	inner := &Ctx{fnContract: cx.fnContract, loopOrd: cx.loopOrd, closureOrd: cx.closureOrd, results: cx.results, defers: cx.defers}
+	iterStart := body.clone()
 	out := e.execBlock(body, n.Body.List, inner)
 	back := e.merge(append([]*State{out}, inner.continues...))
 	if back != nil {
+		// the iterated map itself is unchanged
+		ref := e.asInt(m, nil)
+		e.oblige(back.clone(), "mapiter", "the iterated map is not modified by the loop body",
+			And(Eq(Sel(back.ghost["MapP"], ref), Sel(mapP0, ref)), Eq(Sel(back.ghost["MapV"], ref), Sel(mapV0, ref))), n.Pos(), nil)
+		e.checkSteps(back, iterStart, lc, n.Pos())
+		e.visStack[len(e.visStack)-1] = e.name("visited", Sto(vis, k, I(1)))
 		e.checkInvariants(back, lc, "inv-pres", n.Pos())
 	}
+	e.visStack = e.visStack[:len(e.visStack)-1]
 	cx.returns = append(cx.returns, inner.returns...)
 	cx.defers = inner.defers
 	return e.merge(append([]*State{exit}, inner.breaks...))
